@@ -1,7 +1,7 @@
 import CnbVerif.Model.MappedWrite
 import CnbVerif.Gen.Sites
 /-!
-# Model B of C19 — `libherokubuildpack/src/command.rs`, `output_and_write_streams`
+# Model B of C19 — `libherokubuildpack/src/command.rs`, `output_and_write_streams` / `spawn_and_write_streams`
 
 The child is a *script*: the sequence of its blocking writes (`false` = stdout, `true` = stderr). Each stream has a kernel
 pipe of bounded capacity `cap`. The parent runs, per stream, one copier (`io::copy(&mut pipe, &mut tee(&mut buffer, writer))`,
@@ -127,5 +127,42 @@ def runFirst (mode : Mode) (cap : Nat) : Nat → PSt → PSt
   | fuel + 1, s => match succs mode cap s with
     | [] => s
     | s' :: _ => runFirst mode cap fuel s'
+
+/-! ## When the call returns: stream close vs. child exit
+
+A child process can close its stdout and stderr and live on (a daemon detaching from its stdio). What the parent can observe of a
+child's life is the order of three events: `close false` (every write end of the stdout pipe is closed: the stdout copier reads
+EOF), `close true` (the same for stderr), `exit`. An exit closes whatever the child still held open.
+
+The parent's side of a call is the list of blocking statements it goes through before it returns; each is enabled by what the
+child has done so far. `spawn_and_write_streams` = `write_child_process_output` = join the stdout copier, join the stderr copier,
+hand the `Child` back — plus a wait for the exit exactly when the source holds one (`Gen.Sites.spawnWaitCalls`, regenerated from
+command.rs on every run). `output_and_write_streams` = the same followed by `child.wait()`.
+
+`returned prog evs`: a prompt parent (one that is never the slow side) has returned by the time the child has done `evs`. -/
+
+inductive CEv | close (stream : Bool) | exit
+deriving DecidableEq, Repr
+
+inductive PStmt | joinCopier (stream : Bool) | waitExit
+deriving DecidableEq, Repr
+
+/-- is this blocking statement past, once the child has done `evs`? A copier finishes at EOF of its pipe: the stream was closed, or
+the process is gone; a `wait` finishes at the exit only. -/
+def enabledAfter (evs : List CEv) : PStmt → Bool
+  | .joinCopier st => evs.contains (.close st) || evs.contains .exit
+  | .waitExit => evs.contains .exit
+
+def returned (prog : List PStmt) (evs : List CEv) : Bool := prog.all (enabledAfter evs)
+
+/-- `spawn_and_write_streams` as the source has it now -/
+def spawnProg : List PStmt :=
+  [.joinCopier false, .joinCopier true] ++ (if Gen.Sites.spawnWaitCalls = [] then [] else [.waitExit])
+
+/-- `output_and_write_streams`: `spawn_and_write_streams(..).and_then(|mut child| child.wait())` -/
+def outputProg : List PStmt := spawnProg ++ [.waitExit]
+
+/-- the variant the property rules out for `spawn_and_write_streams`: wait for the exit before handing the child back -/
+def spawnProgWaiting : List PStmt := [.joinCopier false, .joinCopier true, .waitExit]
 
 end CnbVerif.Pipes
